@@ -32,8 +32,9 @@ CONFIGS = {
     # (22 KiB generator table: together with san = 86 KiB and mx_i64 = 2 KiB every check that runs these three sees every comb layout)
     "san_nv": _cfg("gcc", ["-O2", "-g"], ["-DCOMB_BLOCKS=11", "-DCOMB_TEETH=6", "-DECMULT_WINDOW_SIZE=15", "-DUSE_ASM_X86_64=1"], SAN),
     # configuration matrix
+    # (also the one configuration built with HAVE_BUILTIN_POPCOUNT, which autotools builds define and cmake builds do not)
     "mx_i64": _cfg("gcc", ["-O2", "-g"], ["-DCOMB_BLOCKS=2", "-DCOMB_TEETH=5", "-DECMULT_WINDOW_SIZE=8",
-                                           "-DUSE_FORCE_WIDEMUL_INT64=1", "-DVERIFY"], SAN),
+                                           "-DUSE_FORCE_WIDEMUL_INT64=1", "-DVERIFY", "-DHAVE_BUILTIN_POPCOUNT=1"], SAN),
     "mx_i64_nv": _cfg("gcc", ["-O2", "-g"], ["-DCOMB_BLOCKS=11", "-DCOMB_TEETH=6", "-DECMULT_WINDOW_SIZE=2",
                                               "-DUSE_FORCE_WIDEMUL_INT64=1"], SAN),
     "mx_i128s": _cfg("gcc", ["-O2", "-g"], ["-DCOMB_BLOCKS=11", "-DCOMB_TEETH=6", "-DECMULT_WINDOW_SIZE=15",
